@@ -8,7 +8,7 @@ git revert --no-commit $c >/dev/null 2>&1 || { echo "revert failed"; git revert 
 git reset -q
 cd /verif
 for p in "$@"; do
-  out=$(./bin/govc check --tier quick $p 2>&1); rc=$?
+  out=$(GOVC_EVIDENCE=/tmp/govc-dev-evidence ./bin/govc check --tier quick $p 2>&1); rc=$?
   echo "== revert $c vs $p: exit=$rc"
   echo "$out" | grep -E "VIOLATION|failed obligation" | head -6
 done
